@@ -209,7 +209,8 @@ def _is_prev_rdd(e):
 
 def k_other_orders():
     """Order of the effects of TransformedDStream._step and StatefulDStream._step, as constants the proofs check.
-    Transformed: 0 guard, 1 step parent, 2 set _current_time, 3 _current_rdd = self._func(time_, parent rdd).
+    Transformed: 0 guard, 1 step parent, 2 set _current_time, 3 `if self._prev._current_rdd is None: return`,
+                 4 _current_rdd = self._func(time_, parent rdd).
     Stateful:    0 guard, 1 step parent, 2 set _current_time, 3 combined = parent rdd .cogroup(self._state_rdd),
                  4 self._state_rdd = combined.mapValues(self.convert_fn), 5 self._current_rdd = self._state_rdd;
     and convert_fn takes the LAST element of the state list, None when it is empty."""
@@ -229,14 +230,19 @@ def k_other_orders():
             order.append(1)
         elif time_set(st):
             order.append(2)
+        elif (isinstance(st, ast.If) and not st.orelse and len(st.body) == 1 and isinstance(st.body[0], ast.Return)
+              and st.body[0].value is None and isinstance(st.test, ast.Compare) and len(st.test.ops) == 1
+              and isinstance(st.test.ops[0], ast.Is) and _is_prev_rdd(st.test.left)
+              and isinstance(st.test.comparators[0], ast.Constant) and st.test.comparators[0].value is None):
+            order.append(3)
         elif (isinstance(st, ast.Assign) and len(st.targets) == 1 and _is_self_attr(st.targets[0], '_current_rdd')
               and isinstance(st.value, ast.Call) and _is_self_attr(st.value.func, '_func') and len(st.value.args) == 2
               and isinstance(st.value.args[0], ast.Name) and st.value.args[0].id == 'time_'
               and _is_prev_rdd(st.value.args[1]) and not st.value.keywords):
-            order.append(3)
+            order.append(4)
         else:
             raise Unsupported(f'TransformedDStream._step: unexpected statement {ast.dump(st)[:90]}')
-    if sorted(order) != [0, 1, 2, 3]:
+    if sorted(order) != [0, 1, 2, 3, 4]:
         raise Unsupported(f'TransformedDStream._step: effects found {order}')
     out = 'Definition tr_step_order : list Z := [' + '; '.join(map(str, order)) + '].\n'
     # Stateful
